@@ -66,8 +66,9 @@ Record taddr := { a_npi : N; a_ton : N; a_no : list N (* runes of the Go string 
 Definition addr0 : taddr := {| a_npi := 0; a_ton := 0; a_no := [] |}.
 
 (* sms.Time: TZero is the zero time.Time; TDate keeps the arguments handed to
-   time.Date(2000+y, mo, d, h, mi, s, 0, FixedZone("", zq*900)) before Go normalises them *)
-Inductive mtime := TZero | TDate (y mo d h mi s zq : N).
+   time.Date(2000+y, mo, d, h, mi, s, 0, FixedZone(name, ±zq*900)) before Go normalises them;
+   zneg = the sign bit of the zone octet was set (zone name "-", so that minus zero survives) *)
+Inductive mtime := TZero | TDate (y mo d h mi s : N) (zneg : bool) (zq : N).
 
 (* durations are whole seconds (every decoder produces whole seconds) *)
 Inductive vp :=
@@ -344,14 +345,15 @@ Definition addr_body (t : g7tab) (a : taddr) : bytes :=
   kind :: (if a_ton a =? 5 then ta_encode t (a_no a)
            else match encode_semi_address (a_no a) with Some d => d | None => [] end).
 
-(* Address.WriteTo after the D20 fix: numeric -> number of characters, alphanumeric -> 2 * octets *)
+(* Address.WriteTo after the D20 / D21 fixes: numeric -> number of characters; alphanumeric ->
+   useful semi-octets of the 8*octets/7 septets the octets hold *)
 Definition addr_write (t : g7tab) (a : taddr) : bytes :=
   match a_no a with
   | [] => [0]
   | _ =>
     let body := addr_body t a in
-    let n := blen body - 1 in                                  (* data[0] = len(data) - 2 *)
-    (if a_ton a =? 5 then (n * 2) mod 256 else blen (a_no a) mod 256) :: body
+    let n := (blen body - 1) mod 256 in                        (* data[0] = byte(len(data) - 2) *)
+    (if a_ton a =? 5 then (((n * 8 / 7) * 7 + 3) / 4) mod 256 else blen (a_no a) mod 256) :: body
   end.
 (* before the fix: data[0] *= 2; if numeric: data[0] -= 1 *)
 Definition addr_write_legacy_len (a : taddr) (octets : N) : N :=
@@ -405,25 +407,42 @@ Definition go_date (y mo d h mi s : Z) : Z * Z * Z * Z * Z * Z :=
 Definition time_civil (t : mtime) : Z * Z * Z * Z * Z * Z * Z :=
   match t with
   | TZero => (1, 1, 1, 0, 0, 0, 0)
-  | TDate y mo d h mi s zq =>
-    (go_date (2000 + Z.of_N y) (Z.of_N mo) (Z.of_N d) (Z.of_N h) (Z.of_N mi) (Z.of_N s), Z.of_N zq)
+  | TDate y mo d h mi s zneg zq =>
+    (go_date (2000 + Z.of_N y) (Z.of_N mo) (Z.of_N d) (Z.of_N h) (Z.of_N mi) (Z.of_N s),
+     if zneg then - Z.of_N zq else Z.of_N zq)
   end.
+(* name, offset := t.Zone(); negative := offset < 0 || offset == 0 && name == "-" *)
+Definition time_negative (t : mtime) : bool :=
+  match t with TZero => false | TDate _ _ _ _ _ _ zneg _ => zneg end.
 
-(* Time.WriteTo *)
+Close Scope Z_scope.
+(* encoded[len(encoded)-1] |= 0b1000 *)
+Fixpoint or_last (l : bytes) (m : N) : bytes :=
+  match l with [] => [] | [b] => [N.lor b m] | b :: r => b :: or_last r m end.
+(* Time.WriteTo after the D19 fix: the magnitude of the offset, then the sign into bit 3 of the last octet *)
 Definition time_write (t : mtime) : bytes :=
   let '(y, mo, d, h, mi, s, zq) := time_civil t in
-  encode_semi [y - 2000; mo; d; h; mi; s; zq].
-Close Scope Z_scope.
+  let enc := encode_semi [(y - 2000)%Z; mo; d; h; mi; s; Z.abs zq] in
+  if time_negative t then or_last enc 8 else enc.
 
+(* the zone after the D19 fix: bit 3 of the zone octet is the sign; DecodeSemi had read it as part of the
+   tens digit (80 too much, or 8 when the high nibble is the filler).  [legacy19] = the code before. *)
+Definition zone_of (legacy19 : bool) (octet raw : N) : bool * N :=
+  if negb legacy19 && negb (N.land octet 8 =? 0)
+  then (true, if hi4 octet =? 15 then raw - 8 else raw - 80)
+  else (false, raw).
 (* Time.ReadFrom.  [legacy] = true is the code before the D18 fix (no length check) *)
-Definition time_of_blocks (legacy : bool) (blocks : list N) : outcome mtime :=
+Definition time_of_blocks (legacy : bool) (data : bytes) (blocks : list N) : outcome mtime :=
   if negb legacy && (N.of_nat (List.length blocks) <? 7) then Err EDecode else
+  do raw <- idx blocks 6;
+  do zo <- idx data 6;
   do y <- idx blocks 0; do mo <- idx blocks 1; do d <- idx blocks 2; do h <- idx blocks 3;
-  do mi <- idx blocks 4; do s <- idx blocks 5; do zq <- idx blocks 6;
-  Ok (TDate y mo d h mi s zq).
+  do mi <- idx blocks 4; do s <- idx blocks 5;
+  let (zneg, zq) := zone_of false zo raw in
+  Ok (TDate y mo d h mi s zneg zq).
 Definition time_read_gen (legacy : bool) (bs : bytes) : outcome (mtime * bytes) :=
   do (data, bs1) <- read_n 7 bs;
-  do t <- time_of_blocks legacy (decode_semi data);
+  do t <- time_of_blocks legacy data (decode_semi data);
   Ok (t, bs1).
 
 (* ------------------------------------------------------------------ validity periods *)
@@ -578,7 +597,17 @@ Fixpoint vpf_scan (fs : list tfield) (vs : list tval) (acc : N) : N :=
   | _, _ => acc
   end.
 
-Fixpoint trim_right0 (l : bytes) : bytes :=       (* bytes.TrimRight(l, "\x00") *)
+(* countsSeptets(dcs) of sms/marshal.go *)
+Definition counts_septets (dcs : N) : bool :=
+  let group := N.shiftr dcs 4 in
+  if group <? 4 then
+    let alphabet := N.land (N.shiftr dcs 2) 3 in
+    (N.land dcs 32 =? 0) && ((alphabet =? 0) || (alphabet =? 3))
+  else if group =? 14 then false
+  else if group =? 15 then N.land dcs 4 =? 0
+  else true.
+
+Fixpoint trim_right0 (l : bytes) : bytes :=       (* bytes.TrimRight(l, "\x00"): the code before the D22 fix *)
   match l with
   | [] => []
   | b :: r => match trim_right0 r with
@@ -591,10 +620,16 @@ Open Scope string_scope.
 (* one field of the second loop of Marshal.  A value whose shape does not fit
    the field kind cannot exist in Go (static types); the model answers
    [Err EOther] there and the theorems show decoded values never reach it. *)
-Definition field_write (t : g7tab) (vpf : N) (f : tfield) (v : tval) : outcome bytes :=
+Definition field_write (t : g7tab) (vpf dcs : N) (f : tfield) (v : tval) : outcome bytes :=
   match f_ekind f, v with
   | KByte, TVByte b => Ok [b]
-  | KBytes, TVBytes l => Ok ((blen l mod 256) :: trim_right0 l)
+  | KBytes, TVBytes l =>
+    (* after the D22 fix: under a septet-counting DCS the field named UD holds TP-UDL octets of which
+       (7 UDL + 7) div 8 are data; the Go slice expression panics beyond the slice *)
+    if String.eqb (f_tp f) "UD" && counts_septets dcs then
+      let k := (blen l * 7 + 7) / 8 in
+      if (blen l <? k)%N then Panic else Ok ((blen l mod 256) :: firstn (N.to_nat k) l)
+    else Ok ((blen l mod 256) :: l)
   | KFlags fs, TVFlags vals =>
     let vals := if String.eqb (fs_name fs) "SubmitFlags"
                 then flag_put (fs_fields fs) vals "ValidityPeriodFormat" vpf else vals in
@@ -611,12 +646,18 @@ Definition field_write (t : g7tab) (vpf : N) (f : tfield) (v : tval) : outcome b
   end.
 Close Scope string_scope.
 
-Fixpoint fields_write (t : g7tab) (vpf : N) (fs : list tfield) (vs : list tval) : outcome bytes :=
+(* dataCoding = *field when a *byte field is tagged DCS *)
+Definition dcs_after (dcs : N) (f : tfield) (v : tval) : N :=
+  match f_ekind f, v with
+  | KByte, TVByte b => if String.eqb (f_tp f) "DCS"%string then b else dcs
+  | _, _ => dcs
+  end.
+Fixpoint fields_write (t : g7tab) (vpf dcs : N) (fs : list tfield) (vs : list tval) : outcome bytes :=
   match fs, vs with
   | [], [] => Ok []
   | f :: fr, v :: vr =>
-    do a <- field_write t vpf f v;
-    do b <- fields_write t vpf fr vr;
+    do a <- field_write t vpf dcs f v;
+    do b <- fields_write t vpf (dcs_after dcs f v) fr vr;
     Ok (a ++ b)
   | _, _ => Err EOther
   end.
@@ -625,7 +666,7 @@ Definition marshal (E : env) (p : tpdu) : outcome bytes :=
   let '(name, vs) := p in
   match find_layout (e_layouts E) name with
   | None => Err EOther
-  | Some l => fields_write (e_g7 E) (vpf_scan (tl_fields l) vs 0) (tl_fields l) vs
+  | Some l => fields_write (e_g7 E) (vpf_scan (tl_fields l) vs 0) 0 (tl_fields l) vs
   end.
 
 (* decode, then re-encode what was decoded *)
@@ -638,25 +679,26 @@ Definition remarshal (E : env) (bs : bytes) : outcome bytes :=
 Inductive oval :=
 | OByte (b : N) | OFlags (vals : list N) | OBytes (l : bytes)
 | OAddr (npi ton : N) (no : list N)
-| OTime (y mo d h mi s zq : Z)
-| OVPNone | OVPEnh (dur ind : N) | OVPRel (dur : N) | OVPAbs (y mo d h mi s zq : Z)
+| OTime (y mo d h mi s zq : Z) (neg : bool)
+| OVPNone | OVPEnh (dur ind : N) | OVPRel (dur : N) | OVPAbs (y mo d h mi s zq : Z) (neg : bool)
 | OSkip.
 
 Definition beq_nlist := beq_list N.eqb.
-Definition civil_eqb (t : mtime) (y mo d h mi s zq : Z) : bool :=
+Definition civil_eqb (t : mtime) (y mo d h mi s zq : Z) (neg : bool) : bool :=
   let '(y', mo', d', h', mi', s', zq') := time_civil t in
-  ((y' =? y) && (mo' =? mo) && (d' =? d) && (h' =? h) && (mi' =? mi) && (s' =? s) && (zq' =? zq))%Z.
+  ((y' =? y) && (mo' =? mo) && (d' =? d) && (h' =? h) && (mi' =? mi) && (s' =? s) && (zq' =? zq))%Z
+  && Bool.eqb (time_negative t) neg.
 Definition oval_eqb (v : tval) (o : oval) : bool :=
   match v, o with
   | TVByte a, OByte b => a =? b
   | TVFlags a, OFlags b => beq_nlist a b
   | TVBytes a, OBytes b => beq_bytes a b
   | TVAddr a, OAddr npi ton no => (a_npi a =? npi) && (a_ton a =? ton) && beq_nlist (a_no a) no
-  | TVTime t, OTime y mo d h mi s zq => civil_eqb t y mo d h mi s zq
+  | TVTime t, OTime y mo d h mi s zq neg => civil_eqb t y mo d h mi s zq neg
   | TVVP VPNone, OVPNone => true
   | TVVP (VPEnh d i), OVPEnh d' i' => (d =? d') && (i =? i')
   | TVVP (VPRel d), OVPRel d' => d =? d'
-  | TVVP (VPAbs t), OVPAbs y mo d h mi s zq => civil_eqb t y mo d h mi s zq
+  | TVVP (VPAbs t), OVPAbs y mo d h mi s zq neg => civil_eqb t y mo d h mi s zq neg
   | TVSkip, OSkip => true
   | _, _ => false
   end.
